@@ -51,8 +51,8 @@ reg("acc_pad_pos", "dec", ["C04", "C05"], tier=T, cap=1200,
     bounds="PAD + 0..=3 pads at a symbolic position 0..=1554, optionally one pad corrupted by a symbolic delta", encodes=[DEC + "decode_ascii", DEC + "derandomize_253_state"])
 reg("acc_ascii_eci", "dec", ["C04"], tier=T, cap=1200,
     bounds="ASCII char, ECI codeword, one-codeword designator, two ASCII chars, all symbolic", encodes=[DEC + "decode_ascii", DEC + "read_eci"])
-reg("parts_macro05", "dec", ["C16", "C04", "C01"], cap=1200, stubbing=True, bounds="decode_parts on [236, two arbitrary ASCII codewords 1..=128]: header + body + RS EOT; the five non-ASCII mode decoders stubbed out", encodes=[DEC + "decode_parts", DEC + "decode_ascii"])
-reg("parts_macro06_fnc1", "dec", ["C16", "C04", "C01"], cap=1800, stubbing=True, bounds="decode_parts on [237, 2 ASCII codewords], [232, 1 ASCII codeword], [236] alone; same stubs", encodes=[DEC + "decode_parts", DEC + "decode_ascii"])
+reg("parts_macro05", "dec", ["C16", "C04", "C01"], cap=3600, mem_gb=16, tier=T, role="attempt", stubbing=True, bounds="decode_parts on [236, two arbitrary ASCII codewords 1..=128]: header + body + RS EOT; the five non-ASCII mode decoders stubbed out", encodes=[DEC + "decode_parts", DEC + "decode_ascii"])
+reg("parts_macro06_fnc1", "dec", ["C16", "C04", "C01"], cap=3600, mem_gb=16, tier=T, role="attempt", stubbing=True, bounds="decode_parts on [237, 2 ASCII codewords], [232, 1 ASCII codeword], [236] alone; same stubs", encodes=[DEC + "decode_parts", DEC + "decode_ascii"])
 reg("oracle_c40_rt", "dec", ["C04"], cap=300, role="oracle-validation",
     bounds="reference C40/Text encoder -> reference decoder, 2 symbolic chars", encodes=[])
 reg("oracle_edifact_rt", "dec", ["C04"], cap=300, role="oracle-validation",
@@ -151,10 +151,13 @@ for n in ("5_11", "12_18", "20", "22", "24", "27", "28", "32", "34", "36", "38",
         bounds="degree(s) %s: one LFSR step from an ARBITRARY register state (k symbolic bytes) with an arbitrary data byte == (old*x + a*x^k) mod g coefficient-wise in shift-xor arithmetic (one inductive step => any data length)" % n.replace("_", "..")
         , encodes=["errorcode::ecc_block", "errorcode::generator"])
 for n in ("sq52", "sq64", "sq72", "sq80", "sq88", "sq96", "sq104", "sq120", "sq132", "sq144", "sq10", "r16x48"):
-    reg("rs_glue_" + n, "ec", ["C06", "C01"], cap=2400, mem_gb=8 if n in ("sq52", "sq10", "r16x48") else 20, stubbing=True, tier=Q if n in ("sq52", "sq10", "r16x48") else T,
-        qprops=["C06", "C01"] if n == "sq10" else ["C06"], role="attempt" if n in ("sq120", "sq132", "sq144") else "lemma",
-        bounds="%s: EVERY data codeword symbolic; ecc_block replaced by a recording stub (count, first, last, rotating xor): block q receives exactly the codewords q, q+B, q+2B, ... and its result is written to positions q, q+B, ..." % n,
+    reg("rs_glue_" + n, "ec", ["C06", "C01"], cap=2400, mem_gb=8 if n in ("sq52", "sq10", "r16x48") else 16, stubbing=True, tier=Q if n in ("sq52", "sq10", "r16x48", "sq144") else T,
+        qprops=["C06", "C01"] if n == "sq10" else ["C06"],
+        bounds="%s: data = fixed pattern with the first and last codeword of every block symbolic; ecc_block replaced by a recording stub (count, first, last, rotating xor): block q receives exactly the codewords q, q+B, q+2B, ... and its result is written to positions q, q+B, ..." % n,
         encodes=["errorcode::encode_error"])
+for n in ("sq52", "sq10", "r16x48"):
+    reg("rs_gluefull_" + n, "ec", ["C06"], cap=2400, mem_gb=8, stubbing=True, tier=T if n == "sq52" else Q,
+        bounds="%s: EVERY data codeword symbolic; ecc_block replaced by a recording stub: block q receives exactly the codewords q, q+B, ... and its result is written to positions q, q+B, ..." % n, encodes=["errorcode::encode_error"])
 reg("rs_il_sq10", "ec", ["C06", "C01"], cap=600, bounds="10x10: all data zero except the last codeword (symbolic): error codewords == a*x^k mod g at the interleaved positions", encodes=["errorcode::encode_error", "errorcode::ecc_block"])
 reg("rs_il_r8x32", "ec", ["C06"], cap=900, tier=T, bounds="8x32: same", encodes=["errorcode::encode_error"])
 for n in ("sq52", "sq64", "sq144"):
